@@ -428,7 +428,7 @@ def shrink(ctx, case):
 def check(ctx):
     pr = proof_gate(ctx, NEEDS)
     problem = proof_problem(pr)
-    n_solve, n_run = (220, 150) if ctx.tier == "quick" else (3000, 2000)
+    n_solve, n_run = (190, 130) if ctx.tier == "quick" else (3000, 2000)
     if problem:
         n_solve *= 4; n_run *= 4
     if ctx.replay:
